@@ -1,18 +1,51 @@
 (** C13 — What-if simulations are transactional.
-    Statements only; proofs are in Proofs/Session.v, the model of
-    framework.Statement in Model/Session.v.
+    Statements only; proofs are in Proofs/Session.v and Proofs/SessionLog.v, the
+    model of framework.Statement in Model/Session.v.
 
     [step fails s c] runs one statement command ([fails]: which Cache call
-    fails); [Session.run] a program.  [wf_from tok fails stk conv s prog] is the
-    decidable well-formedness predicate (Model/Session.v, [wf_cmd]): Allocate on
-    Pending pods, Pipeline on Pending pods or pods evicted by this statement,
-    Evict on active allocated pods that have no valid evict entry and no
-    placing entry yet, Unevict on a pod evicted by this statement, Rollback only
-    to an outstanding checkpoint, and the snapshot consistent where the command
-    reads it.  [open_cmd]: the statement is still open (no Commit, no
-    ConvertAllAllocatedToPipelined — the allocate action follows that one by
-    Commit at once).  [state_at fails S prog cp] is the session as it was when
-    the outstanding checkpoint [cp] was taken.
+    fails); [Session.run] a program.  [open_cmd]: the statement is still open (no
+    Commit, no ConvertAllAllocatedToPipelined — the allocate action follows that
+    one by Commit at once).  [state_at fails S prog cp] is the session as it was
+    when the outstanding checkpoint [cp] was taken.
+
+    [wf_from tok fails stk conv s prog] is the decidable well-formedness predicate
+    (Model/Session.v, [wf_cmd]).  Since the repair 83a0ca3, completed by bce7109
+    (Statement.Evict leaves a task that is already Releasing alone, whichever copy
+    of the pod it is handed) it has NO clause on repeated
+    evictions: Evict may be applied to ANY pod of the session that is Releasing -
+    evicted before by this statement (any number of times), by an earlier
+    statement, or terminating in the snapshot - at any point, also between a
+    checkpoint and its rollback.  The clauses that remain, and why:
+      Evict p       p is in the session; either p is Releasing (the command is
+                    ignored: nothing else is asked, not even of the snapshot), or
+                    p is active allocated, is not placed by this statement (the
+                    actions evict running pods; a pod the statement itself
+                    nominated or allocated is not Releasing, the repair does not
+                    cover evicting it) and the snapshot is consistent where Evict
+                    reads it (the node's copy of the pod equals the job's pod, the
+                    job's index bucket of the pod's status is populated, the
+                    node's pod map is sorted, the pod's accepted resources are
+                    those of its node).  The former clause "p has no valid evict
+                    entry yet" is gone: it is now a theorem
+                    ([C13_no_valid_eviction_unless_releasing]).
+      Allocate p n  p is Pending, sits on no node, is not placed by this
+                    statement (at most one placement per pod is a property of
+                    what the actions ask for, not of the code: Statement.Allocate
+                    / Pipeline do not refuse a second placement), snapshot
+                    consistent on n.
+      Pipeline p n  p is Pending as for Allocate, or p was evicted by this
+                    statement (Releasing, virtual, its earliest valid evict entry
+                    describes where it sits: that is what the un-evict branch and
+                    the rollback of a re-placement read), not placed yet.
+      Unevict p     p was evicted by this statement (as above): Unevict of a pod
+                    without valid eviction is an error in the code.
+      Rollback cp   cp is an outstanding checkpoint of this statement.
+      Convert j     only allocations and nominations in the statement; only
+                    Commit may follow.
+      Checkpoint, Discard, Commit: always.
+    The snapshot-consistency parts are evaluated on every generated program by the
+    correspondence check (they are facts about cycle.Build sessions, not
+    restrictions on the program).
 
     The full statements are false of the code (and of the model, which agrees
     with the code on these programs): see the [_refuted] theorems and the
@@ -26,20 +59,26 @@
         [GPUGroups] before Statement.Pipeline / Allocate and unpipeline /
         unallocate restore the assigned value;
     and exactly everything on nodes when no shared-GPU pod is operated on
-    ([_nonshared]).  A double eviction of one pod (known finding
-    C13-double-evict) is excluded by [wf_cmd]; without that clause Commit emits
-    two Evict calls for the pod ([C13_commit_double_evict_witness]).
+    ([_nonshared]).  An ignored Evict has nothing to undo: Rollback and Discard
+    restore the same things in programs that evict pods again.
+
+    Commit emits at most one eviction per pod whatever is evicted how often
+    ([C13_commit_at_most_once], [C13_commit_no_pod_evicted_twice]); before the
+    repair the same pod evicted twice was sent to Cache.Evict twice
+    ([C13_commit_double_evict_before_repair], on the model with the former Evict;
+    [C13_commit_evict_twice_emits_one] is the same program on the model as it is).
 
     Section 4 ties Commit to a specification that does not look at the
     operation log at all (Model/SessionSpec.v): [valid_steps fails S prog] is
     computed from the commands of [prog] and, for each command, the place of
-    its pod before the command (Evict adds a valid eviction; Unevict, or
-    Pipeline onto the pod's own node and devices, withdraws the pod's earliest
-    valid eviction; Rollback goes back to the valid steps of the checkpoint;
-    Discard empties).  Commit emits exactly one call per valid step, of its
-    kind, in order - nothing for a pod whose evictions were all undone
-    ([C13_commit_log_spec]); and an Unevict that withdraws the only valid
-    eviction of a pod is a rollback of that eviction
+    its pod before the command (Evict adds a valid eviction unless the pod is
+    already Releasing; Unevict, or Pipeline onto the pod's own node and devices,
+    withdraws the pod's earliest valid eviction; Rollback goes back to the valid
+    steps of the checkpoint; Discard empties).  The valid steps never hold two
+    steps of one kind for one pod ([C13_valid_steps_at_most_once]); Commit emits
+    exactly one call per valid step, of its kind, in order - nothing for a pod
+    whose evictions were all undone ([C13_commit_log_spec]); and an Unevict that
+    withdraws the only valid eviction of a pod is a rollback of that eviction
     ([C13_unevict_restores]). *)
 From Coq Require Import List ZArith PArith Bool.
 From KaiV Require Import Model.Res Model.Status Model.AMap Model.Node Model.NodeSpec Model.Session Model.SessionSpec
@@ -194,8 +233,9 @@ Theorem C13_commit_subsequence : forall (fails : nat -> bool) (s : sess),
 Proof. exact commit_sub. Qed.
 Print Assumptions C13_commit_subsequence.
 
-(** after a well-formed open statement, Commit emits at most one eviction and
-    at most one placement (Bind or TaskPipelined) per pod, whatever fails *)
+(** after a well-formed open statement - in which Evict may have been applied to any Releasing pod,
+    already evicted ones included, any number of times - Commit emits at most one eviction and at
+    most one placement (Bind or TaskPipelined) per pod, whatever fails *)
 Theorem C13_commit_at_most_once : forall (fails : nat -> bool) (S : sess) (prog : list cmd),
   s_log S = [] -> s_stuck S = false -> forallb open_cmd prog = true ->
   wf_from any_task fails [] false S (prog ++ [Commit]) = true ->
@@ -203,21 +243,70 @@ Theorem C13_commit_at_most_once : forall (fails : nat -> bool) (S : sess) (prog 
 Proof. exact commit_once_run. Qed.
 Print Assumptions C13_commit_at_most_once.
 
-(** without the clause "no valid evict entry yet" the statement is false: the
-    same running pod evicted twice is sent to Cache.Evict twice *)
-Theorem C13_commit_double_evict_witness :
+(** the same read on the calls: no pod is sent to Cache.Evict twice by one Commit *)
+Theorem C13_commit_no_pod_evicted_twice : forall (fails : nat -> bool) (S : sess) (prog : list cmd),
+  s_log S = [] -> s_stuck S = false -> forallb open_cmd prog = true ->
+  wf_from any_task fails [] false S (prog ++ [Commit]) = true ->
+  forall p pre mid post,
+    snd (step fails (Session.run fails S prog) Commit) <> pre ++ AEvict p :: mid ++ AEvict p :: post.
+Proof. exact commit_no_two_evictions. Qed.
+Print Assumptions C13_commit_no_pod_evicted_twice.
+
+(** what [wf_cmd] used to demand of an Evict is a consequence: in a well-formed open statement a
+    pod that is not Releasing and that the statement has not placed has no valid evict entry
+    ([no_valid_evict]: every evict entry of the pod in the operation log is undone) *)
+Theorem C13_no_valid_eviction_unless_releasing : forall (fails : nat -> bool) (S : sess) (prog : list cmd) (pid : positive),
+  s_log S = [] -> s_stuck S = false -> forallb open_cmd prog = true ->
+  wf_from any_task fails [] false S (prog ++ [Evict pid]) = true ->
+  releasing_in (Session.run fails S prog) pid = false ->
+  has_placing (s_log (Session.run fails S prog)) pid = false ->
+  no_valid_evict (s_log (Session.run fails S prog)) pid = true.
+Proof. exact run_no_valid_evict. Qed.
+Print Assumptions C13_no_valid_eviction_unless_releasing.
+
+(** before the repair 83a0ca3 / bce7109 ([run_before_repair]: the commands with Statement.Evict as it was,
+    without the test of the task's status): the same running pod evicted twice leaves two
+    operations in the statement and is sent to Cache.Evict twice *)
+Theorem C13_commit_double_evict_before_repair :
   option_map p_status (get_pod w3_init 3) = Some Running
-  /\ snd (step nofail (Session.run nofail w3_init [Evict 3; Evict 3]) Commit) = [AEvict 3; AEvict 3]
-  /\ wf_from any_task nofail [] false w3_init [Evict 3] = true
-  /\ wf_from any_task nofail [] false w3_init [Evict 3; Evict 3] = false.
-Proof. exact commit_double_evict_witness. Qed.
-Print Assumptions C13_commit_double_evict_witness.
+  /\ length (s_log (run_before_repair nofail w3_init [Evict 3; Evict 3])) = 2%nat
+  /\ snd (step nofail (run_before_repair nofail w3_init [Evict 3; Evict 3]) Commit) = [AEvict 3; AEvict 3].
+Proof. exact commit_double_evict_before_repair. Qed.
+Print Assumptions C13_commit_double_evict_before_repair.
+
+(** the same program on the model of the code as it is: it is well-formed, the second Evict changes
+    nothing and Commit emits ONE eviction; so it does with a checkpoint and a rollback around the
+    second Evict; after [Evict 3; Evict 3; Unevict 3] nothing is emitted; [Evict 3; Evict 3; Discard]
+    gives back the initial projection *)
+Theorem C13_commit_evict_twice_emits_one :
+  wf_from any_task nofail [] false w3_init ([Evict 3; Evict 3] ++ [Commit]) = true
+  /\ forallb open_cmd [Evict 3; Evict 3] = true
+  /\ Session.run nofail w3_init [Evict 3; Evict 3] = Session.run nofail w3_init [Evict 3]
+  /\ snd (step nofail (Session.run nofail w3_init [Evict 3; Evict 3]) Commit) = [AEvict 3]
+  /\ wf_from any_task nofail [] false w3_init ([Evict 3; Checkpoint; Evict 3; Rollback 1] ++ [Commit]) = true
+  /\ snd (step nofail (Session.run nofail w3_init [Evict 3; Checkpoint; Evict 3; Rollback 1]) Commit) = [AEvict 3]
+  /\ wf_from any_task nofail [] false w3_init ([Evict 3; Evict 3; Unevict 3] ++ [Commit]) = true
+  /\ snd (step nofail (Session.run nofail w3_init [Evict 3; Evict 3; Unevict 3]) Commit) = []
+  /\ wf_from any_task nofail [] false w3_init ([Evict 3; Evict 3] ++ [Discard]) = true
+  /\ project (Session.run nofail w3_init ([Evict 3; Evict 3] ++ [Discard])) = project w3_init.
+Proof. exact commit_evict_twice_once. Qed.
+Print Assumptions C13_commit_evict_twice_emits_one.
 
 (** ** 4. Commit and Unevict against the log-level specification (Model/SessionSpec.v)
 
     [valid_steps fails S prog]: the steps still valid after [prog] according to
     the command history; [expect_calls]: one (kind, pod) per valid step, kind =
     eviction / nomination / bind; [call_key]: kind and pod of an emitted call. *)
+
+(** the still-valid steps of a well-formed open statement never hold two steps of one kind for one
+    pod: at most one eviction per pod however often Evict was applied to it ([c]: the command
+    that follows, any) *)
+Theorem C13_valid_steps_at_most_once : forall (fails : nat -> bool) (S : sess) (prog : list cmd) (c : cmd),
+  s_log S = [] -> s_stuck S = false -> forallb open_cmd prog = true ->
+  wf_from any_task fails [] false S (prog ++ [c]) = true ->
+  NoDup (expect_calls (valid_steps fails S prog)).
+Proof. exact valid_steps_once. Qed.
+Print Assumptions C13_valid_steps_at_most_once.
 
 (** After a well-formed open statement on a session whose pod map is keyed by
     pod id, for every failure oracle: the calls of Commit are, in order, exactly
@@ -256,10 +345,10 @@ Theorem C13_commit_log_spec_only_valid : forall (fails : nat -> bool) (S : sess)
 Proof. exact commit_log_sound. Qed.
 Print Assumptions C13_commit_log_spec_only_valid.
 
-(** Evict p ... Unevict p in a well-formed open statement, where Evict p is
-    well-formed (p has no valid eviction before it, so the Unevict leaves p
-    without a valid eviction) and what happened in between is no longer in
-    effect (the log is again the one the eviction produced and the session is
+(** Evict p ... Unevict p in a well-formed open statement, where p is not
+    Releasing when it is evicted (the Evict is not ignored; p then has no valid
+    eviction before it, so the Unevict leaves p without a valid eviction) and
+    what happened in between is no longer in effect (the log is again the one the eviction produced and the session is
     related to the one it produced: nothing or checkpoints in between, or steps
     that were rolled back): the session is related to the one BEFORE the
     eviction; [C13_restored_meaning] spells the relation out (every pod's
@@ -268,6 +357,7 @@ Print Assumptions C13_commit_log_spec_only_valid.
 Theorem C13_unevict_restores : forall (fails : nat -> bool) (S : sess) (prog mid : list cmd) (pid : positive),
   s_log S = [] -> s_stuck S = false -> forallb open_cmd (prog ++ Evict pid :: mid) = true ->
   wf_from any_task fails [] false S ((prog ++ Evict pid :: mid) ++ [Unevict pid]) = true ->
+  releasing_in (Session.run fails S prog) pid = false ->
   s_log (Session.run fails S (prog ++ Evict pid :: mid)) = s_log (Session.run fails S (prog ++ [Evict pid])) ->
   srel neq (Session.run fails S (prog ++ [Evict pid])) (Session.run fails S (prog ++ Evict pid :: mid)) ->
   srel neq (Session.run fails S prog) (Session.run fails S ((prog ++ Evict pid :: mid) ++ [Unevict pid])).
@@ -277,6 +367,7 @@ Print Assumptions C13_unevict_restores.
 Theorem C13_unevict_restores_adjacent : forall (fails : nat -> bool) (S : sess) (prog : list cmd) (pid : positive),
   s_log S = [] -> s_stuck S = false -> forallb open_cmd prog = true ->
   wf_from any_task fails [] false S (prog ++ [Evict pid; Unevict pid]) = true ->
+  releasing_in (Session.run fails S prog) pid = false ->
   srel neq (Session.run fails S prog) (Session.run fails S (prog ++ [Evict pid; Unevict pid])).
 Proof. exact unevict_restores_adjacent. Qed.
 Print Assumptions C13_unevict_restores_adjacent.
@@ -285,6 +376,7 @@ Print Assumptions C13_unevict_restores_adjacent.
     pod 4, checkpoint, evict pod 6, roll back, un-evict pod 4 *)
 Theorem C13_unevict_restores_rolled_back_witness :
   wf_from any_task nofail [] false w10_init (([] ++ Evict 4 :: wl_mid) ++ [Unevict 4]) = true
+  /\ releasing_in w10_init 4 = false
   /\ srel neq w10_init (Session.run nofail w10_init (([] ++ Evict 4 :: wl_mid) ++ [Unevict 4])).
 Proof. exact unevict_restores_rolled_back_witness. Qed.
 Print Assumptions C13_unevict_restores_rolled_back_witness.
@@ -309,6 +401,25 @@ Theorem C13_log_spec_nonvacuous :
      = [AEvict 6; APipe 8 (Some 1%positive) []; APipe 6 (Some 2%positive) []].
 Proof. exact log_spec_nonvacuous. Qed.
 Print Assumptions C13_log_spec_nonvacuous.
+
+(** Evict applied again to an evicted pod, and to a pod that is terminating in the snapshot (pod 5
+    of W1): the history holds one eviction of pod 3 and Commit emits one, also with the second
+    Evict between a checkpoint and its rollback; after Unevict no valid step is left; evicting
+    the terminating pod is well-formed, leaves the session as it is and is never emitted *)
+Theorem C13_log_spec_evict_again :
+  valid_steps nofail w3_init [Evict 3; Evict 3] = [VEv 3 [] 0]
+  /\ valid_steps nofail w3_init [Evict 3; Evict 3; Evict 3] = [VEv 3 [] 0]
+  /\ valid_steps nofail w3_init [Evict 3; Checkpoint; Evict 3; Rollback 1] = [VEv 3 [] 0]
+  /\ valid_steps nofail w3_init [Evict 3; Evict 3; Unevict 3] = []
+  /\ wf_from any_task nofail [] false w3_init ([Evict 3; Evict 3; Evict 3] ++ [Commit]) = true
+  /\ snd (step nofail (Session.run nofail w3_init [Evict 3; Evict 3; Evict 3]) Commit) = [AEvict 3]
+  /\ option_map (fun p => (p_status p, p_virt p)) (get_pod w1_init 5) = Some (Releasing, false)
+  /\ Session.run nofail w1_init [Evict 5] = w1_init
+  /\ wf_from any_task nofail [] false w1_init ([Evict 5; Checkpoint; Evict 3; Evict 5; Evict 3] ++ [Commit]) = true
+  /\ valid_steps nofail w1_init [Evict 5; Checkpoint; Evict 3; Evict 5; Evict 3] = [VEv 3 [16%positive] 0]
+  /\ snd (step nofail (Session.run nofail w1_init [Evict 5; Checkpoint; Evict 3; Evict 5; Evict 3]) Commit) = [AEvict 3].
+Proof. exact log_spec_evict_again. Qed.
+Print Assumptions C13_log_spec_evict_again.
 
 (** ** Non-vacuity *)
 Theorem C13_nonvacuous :
